@@ -181,7 +181,7 @@ def maxExtent : Space α → α
   | .torus _ _ => cmp2 Num.pi Num.pi
   | .mobius imax _ => cmp2 Num.pi (rvExtent [-imax] [imax])
   | .klein => cmp2 (rvExtent [Num.ofNat 0] [Num.pi]) Num.pi
-  | .sphere _ => cmp2 Num.pi (rvExtent [Num.ofNat 0] [Num.pi])
+  | .sphere r => Num.pi * r                         -- SphereStateSpace::getMaximumExtent (3ad69d0eb: `pi * radius_`)
   | .wrap s => maxExtent s
 /-- `if (weights_[i] >= epsilon) e += weights_[i] * components_[i]->getMaximumExtent()` -/
 def extentAcc (acc : α) : Space α → α
